@@ -37,6 +37,8 @@ func init() {
 			c.ruleQuotedNumber("R-QUOTED-NUMBER")
 			c.ruleParseWidth("R-PARSE-WIDTH", "encoding/protojson", 2)
 			c.ruleBase64Select("R-BASE64-SELECT")
+			c.ruleMapKeyParse("R-MAPKEY-PARSE")
+			c.ruleFloatExpCleanup("R-FLOAT-EXP-CLEANUP")
 			c.ruleFloatBits("R-FLOATBITS", inPkgs("internal/encoding/json", "encoding/protojson"), 1)
 			c.ruleKindContext("R-KIND-CONTEXT", []string{"encoding/protojson", "internal/encoding/json"}, 10)
 		},
